@@ -192,7 +192,7 @@ def members : List B := [s "get", s "put", s "post", s "delete", s "options", s 
     schema object is not part of WF: they are JSON object keys.) -/
 def wfDoc (v : Version) (d : Doc Schema) : Bool :=
   (match v with
-   | .v30 => hasPrefix (s "3.0.") d.openapi && d.dialect.isEmpty
+   | .v30 => hasPrefix (s "3.0.") d.openapi && d.dialect.isEmpty && d.infoSummary.isEmpty  -- the 3.0 Info Object has no `summary`
    | .v31 => hasPrefix (s "3.1.") d.openapi) &&
   d.paths.all (fun pi => hasPrefix (s "/") pi.1 &&
     pi.2.all (fun mo => members.contains mo.1 && wfOperation v mo.2)) &&
